@@ -1,5 +1,128 @@
 import BigtreeModel.Proto
-/-! Driver handler for property C06: one case (token list) in, one canonical line out. -/
+import BigtreeModel.Export
+import BigtreeModel.Newick
+/-! Driver handler for property C06 (exports and their constructors).
+
+`fmt=<dict|rows|nested|newick|print> op=<exp|rt|parse> <options> start=<pre-order index> T <tree>`
+
+* `exp`   → the exported object, canonical (dict: `xpath>record …`; rows: `cols=… rows=…`;
+            nested: `( record child* )`; newick: `x<hex of the string>`);
+* `rt`    → the tree rebuilt by the matching constructor from that export: `( xname attrs child* )`
+            with attributes sorted by key, or `rej`;
+* `parse` → `newick_to_tree` on the literal string `s=`.
+`fmt=print op=rt`: the printed-tree round trip is owned by C18's model; here the model side is the
+specification itself (the tree, names only).
+Options: `sep pc nk pk` (hex strings), `ad=xk:xcol,…|-`, `all md sd lo`, Newick: `inn la ls al ap as`. -/
 namespace Drv.C06
-def handle (_toks : List String) : String := "unimplemented"
+open Proto Export
+
+def showRec (r : Rec) : String := showAttrs r
+
+def showDict (d : List (Str × Rec)) : String :=
+  if d.isEmpty then "empty" else " ".intercalate (d.map fun pr => hex pr.1 ++ ">" ++ showRec pr.2)
+
+def showStrs (l : List Str) : String := if l.isEmpty then "-" else ",".intercalate (l.map hex)
+
+def showFrame (f : List Str × List Rec) : String :=
+  "cols=" ++ showStrs f.1 ++ " rows=" ++
+    (if f.2.isEmpty then "-" else ";".intercalate (f.2.map fun r => ",".intercalate (r.map fun kv => showVal kv.2)))
+
+partial def showNested : Nested → String
+  | .mk f ks => "( " ++ showRec f ++ " " ++ String.join (ks.map fun k => showNested k ++ " ") ++ ")"
+
+/-- rebuilt tree: names, attributes sorted by key (as `describe` lists them), children in order -/
+partial def showBuilt : Tree → String
+  | .node _ n a cs =>
+    "( " ++ hex n ++ " " ++ showAttrs (describe a) ++ " " ++ String.join (cs.map fun c => showBuilt c ++ " ") ++ ")"
+
+partial def showNames : Tree → String
+  | .node _ n _ cs => "( " ++ hex n ++ " - " ++ String.join (cs.map fun c => showNames c ++ " ") ++ ")"
+
+def showOptTree : Option Tree → String
+  | none => "rej"
+  | some t => showBuilt t
+
+def parseBool (s : String) : Option Bool :=
+  if s == "1" then some true else if s == "0" then some false else none
+
+def parseAttrDict (tok : String) : Option (List (Str × Str)) :=
+  if tok == "-" then some [] else
+  (tok.splitOn ",").mapM (fun kv =>
+    match kv.splitOn ":" with
+    | [k, v] => do pure ((← unhex k), (← unhex v))
+    | _ => none)
+
+def parseStrs (tok : String) : Option (List Str) :=
+  if tok == "-" then some [] else (tok.splitOn ",").mapM unhex
+
+def hexOpt (toks : List String) (key : String) (dflt : Str) : Option Str :=
+  match kv toks key with
+  | none => some dflt
+  | some v => unhex v
+
+def natOpt (toks : List String) (key : String) : Option Nat :=
+  match kv toks key with
+  | none => some 0
+  | some v => v.toNat?
+
+def boolOpt (toks : List String) (key : String) (dflt : Bool) : Option Bool :=
+  match kv toks key with
+  | none => some dflt
+  | some v => parseBool v
+
+def splitAtTok (toks : List String) (t : String) : List String × List String :=
+  (toks.takeWhile (· ≠ t), (toks.dropWhile (· ≠ t)).drop 1)
+
+def handle (toks : List String) : String :=
+  let r : Option String := do
+    let (head, rest) := splitAtTok toks "T"
+    let fmt ← kv head "fmt"
+    let op ← kv head "op"
+    if fmt == "newick" && op == "parse" then
+      let s ← unhex (← kv head "s")
+      let la ← hexOpt head "la" "length".toList
+      let ap ← hexOpt head "ap" "&&NHX:".toList
+      pure (showOptTree (Newick.parse Newick.chars la ap s))
+    else
+    let (root, _) ← parseTree rest
+    let start ← (← kv head "start").toNat?
+    let (anc, t) ← (preCtx [] root)[start]?
+    let sepS ← hexOpt head "sep" ['/']
+    let sep ← match sepS with | [ch] => some ch | _ => none
+    if fmt == "print" then
+      if op == "rt" then pure (showNames t) else none
+    else if fmt == "newick" then
+      let o : Newick.WOpts := {
+        interName := ← boolOpt head "inn" true
+        lengthAttr := ← hexOpt head "la" []
+        lengthSep := ← hexOpt head "ls" [':']
+        attrList := ← (match kv head "al" with | none => some [] | some v => parseStrs v)
+        attrPrefix := ← hexOpt head "ap" "&&NHX:".toList
+        attrSep := ← hexOpt head "as" [':'] }
+      let w := Newick.write Newick.chars o (start == 0) t
+      if op == "exp" then
+        pure (match w with | none => "rej" | some s => hex s)
+      else if op == "rt" then
+        let la := if o.lengthAttr = [] then "length".toList else o.lengthAttr
+        pure (showOptTree (w.bind (Newick.parse Newick.chars la o.attrPrefix)))
+      else none
+    else
+      let o : Opts := {
+        pathCol := ← hexOpt head "pc" []
+        nameKey := ← hexOpt head "nk" []
+        parentKey := ← hexOpt head "pk" []
+        attrDict := ← (match kv head "ad" with | none => some [] | some v => parseAttrDict v)
+        allAttrs := ← boolOpt head "all" false
+        maxDepth := ← natOpt head "md"
+        skipDepth := ← natOpt head "sd"
+        leafOnly := ← boolOpt head "lo" false }
+      match fmt, op with
+      | "dict", "exp" => pure (showDict (treeToDict o sep anc t))
+      | "dict", "rt" => pure (showOptTree (dictToTree sep (treeToDict o sep anc t)))
+      | "rows", "exp" => pure (showFrame (frame (treeToRows o sep anc t)))
+      | "rows", "rt" => pure (showOptTree (rowsToTree sep (frame (treeToRows o sep anc t))))
+      | "nested", "exp" => pure (match treeToNested o anc t with | none => "rej" | some x => showNested x)
+      | "nested", "rt" => pure (showOptTree ((treeToNested o anc t).bind (nestedToTree o.nameKey)))
+      | _, _ => none
+  r.getD "bad-op"
 end Drv.C06
